@@ -26,9 +26,13 @@ THEOREMS = [
     'Nb.C20.partial_read_eq_whole',
     'Nb.C20.strict_truncated_orig_counterexample',
     'Nb.C20.full_flag_meaning',
-    'Nb.C20.truncated_exactly_full_volumes_partial',
+    'Nb.C20.truncated_exactly_full_volumes',
+    'Nb.C20.truncated_kept_iff',
+    'Nb.C20.truncated_exactly_full_volumes_of_count',
+    'Nb.C20.truncated_keeps_flagged_full',
     'Nb.C20.truncated_multi_partial_overcount_witness',
-    'Nb.C20.lax_order_preserving_partial',
+    'Nb.C20.lax_order_preserving',
+    'Nb.C20.lax_identity_of_sorted_keys',
 ]
 ASSUMPTIONS = [
     'hand-written Lean model of nibabel/parrec.py sorting/trimming/scaling/label logic (Model/C20.lean), tied '
@@ -51,7 +55,7 @@ RULE = ('data sets: versions V4/V4.1/V4.2 x 2-5 slices x up to 3 echoes x 3 dyna
         'permuted alike; dropped tail of 0..2*slices records (or random dropped records); x scaling {dv,fp} x '
         'strict_sort x permit_truncated; edge stream: slice numbers out of range, duplicate volume labels '
         '(V4-like diffusion), missing whole volumes, wrong maxima. A case is non-trivial when it has >1 volume or '
-        'is truncated; distinct by (cfg, records in file order, flags). read stream: for about half of the load cases (always for canonical / slice-major / volume-shuffled untruncated files) 5 index tuples read through the proxy (`[..., k]`, strided and negative slices, int+slice mixes, a few out-of-range ints), scaled and unscaled. helper stream: vol_numbers / vol_is_full on '
+        'is truncated; distinct by (cfg, records in file order, flags). read stream: for about half of the load cases (always for canonical / slice-major / volume-shuffled untruncated files) 5 index tuples read through the proxy (`[..., k]`, strided and negative slices, int+slice mixes, a few out-of-range ints), scaled and unscaled. spec stream: the specification predicate `complete` and the hypotheses of truncated_exactly_full_volumes (model) against the by-label analysis of the harness, and the conclusion of the theorem on the real loader whenever the hypotheses hold. helper stream: vol_numbers / vol_is_full on '
         'random slice-number lists.')
 
 def _r(sl, dy, pl):
@@ -233,6 +237,24 @@ def gen_slicers(rng, S, V, n):
     return out
 
 
+def mk_spec_case(d):
+    """spec predicate `complete` / hypotheses of truncated_exactly_full_volumes on the records of `d`"""
+    d = dict(d, op='spec', stream='spec')
+    cfg = '%d,%d,%d,%d,%d,%d,%d' % (d['ver'], d['diffusion'], d['max'][0], d['max'][1], d['max'][2],
+                                   d['max'][3], d['max'][4])
+    recs = ';'.join(','.join(str(int(v)) for v in r) for r in d['recs'])
+    return Case('C20 spec %s %s' % (cfg, recs), d, ('spec', cfg, recs), 'spec')
+
+
+def spec_reference(d):
+    """(payloads of the records of complete label sets in label/slice order, H0 and H1 hold)"""
+    sets, complete, partial, dup, oob = analyse(d)
+    S = d['max'][0]
+    in_partial = {r[0] for v in partial.values() for r in v}
+    hyps = bool(complete) and any(s not in in_partial for s in range(1, S + 1))
+    return [r[F['payload']] for k in sorted(complete) for r in complete[k]], hyps
+
+
 def mk_helper(op, smax, sl):
     sls = ','.join(map(str, sl)) if sl else '-'
     line = 'C20 volnos %s' % sls if op == 'volnos' else 'C20 isfull %d %s' % (smax, sls)
@@ -244,6 +266,8 @@ def case_from_data(d):
         return mk_helper(d['op'], d['smax'], d['sl'])
     if d.get('op') == 'read':
         return mk_read_case(d, d['slicers'], d.get('stream', 'read'))
+    if d.get('op') == 'spec':
+        return mk_spec_case(d)
     return mk_case(d, d.get('stream', 'main'))
 
 
@@ -354,6 +378,8 @@ def variants(rng, base, tier, n_orders):
                 d = dict(base, recs=kept, strict=strict, permit=permit, scaling=scaling, order=kind,
                          dropped=k, drop_mode=mode if k else None)
                 out.append(mk_case(d, 'main' if not k else 'truncated'))
+                if strict and rng.random() < 0.5:
+                    out.append(mk_spec_case(d))
                 # sliced reads through the proxy; always for the orders that keep the first and the last
                 # record in place without being sorted
                 if rng.random() < (1.0 if (kind in ('slice-major', 'volumes-shuffled', 'canonical') and not k) else 0.35):
@@ -527,6 +553,9 @@ def oracle_helper(d, out):
 def impl(case):
     if case.data.get('op') in ('volnos', 'isfull'):
         return impl_helper(case.data)
+    if case.data.get('op') == 'spec':
+        pl, hyps = spec_reference(case.data)
+        return 'complete=[%s] hyps=%d' % (','.join(map(str, pl)), int(hyps))
     if case.data.get('op') == 'read':
         o = observe_read(case.data)
         case.extra = o
@@ -741,6 +770,18 @@ def oracle(case, out):
     d = case.data
     if d.get('op') == 'read':
         return oracle_read(case, out)
+    if d.get('op') == 'spec':
+        # instance of truncated_exactly_full_volumes on the implementation: under its hypotheses the strict
+        # loader returns exactly the records of the complete label sets, in label order
+        pl, hyps = spec_reference(d)
+        sets, complete, partial, dup, oob = analyse(d)
+        if hyps and not dup and not oob:
+            o = observe(dict(d, op='load', strict=1, permit=1, scaling='dv'))
+            if 'err' in o:
+                return 'theorem-instance: loader raised %s under the hypotheses of truncated_exactly_full_volumes' % o['err']
+            if o['data'] != pl:
+                return 'theorem-instance: loader kept %s, the complete label sets are %s' % (o['data'], pl)
+        return None
     if d.get('op') in ('volnos', 'isfull'):
         return oracle_helper(d, out)
     o = case.extra if case.extra is not None and obs_line(case.extra) == out else observe(d)
@@ -864,6 +905,8 @@ def signature(case, what):
         return 'parrec:helper:' + d['op']
     if d.get('op') == 'read':
         return 'parrec:partial-read:strict=%s:%s' % (d.get('strict'), what.split(':')[0])
+    if d.get('op') == 'spec':
+        return 'parrec:spec:' + what.split(':')[0]
     cat = what.split(':')[0].split()[0] if what else 'none'
     lab, occ, strict, permit = domain(d)
     if permit and cat == 'shape':
@@ -885,6 +928,10 @@ def shrink_candidates(case):
     if d0.get('op') in ('volnos', 'isfull'):
         for i in range(len(d0['sl'])):
             yield mk_helper(d0['op'], d0['smax'], d0['sl'][:i] + d0['sl'][i + 1:])
+        return
+    if d0.get('op') == 'spec':
+        for c in _shrink_raw(case):
+            yield mk_spec_case(dict(d0, recs=c.data['recs']))
         return
     if d0.get('op') == 'read':
         if len(d0['slicers']) > 1:
